@@ -762,6 +762,62 @@ def eq_after_change_check(sc):
     return None, True
 
 
+def _retype(v, rng):
+    """the same document with some numbers written in another of JSON's / Python's number-like types
+    (1 / 1.0 / True, 0 / 0.0 / False): equal by ==, different by type"""
+    if isinstance(v, dict):
+        return {k: _retype(x, rng) for k, x in v.items()}
+    if isinstance(v, list):
+        return [_retype(x, rng) for x in v]
+    if isinstance(v, bool):
+        return rng.choice([v, int(v), float(v)])
+    if isinstance(v, (int, float)) and v in (0, 1):
+        return rng.choice([v, bool(v), int(v), float(v)])
+    if isinstance(v, int) and abs(v) < 2 ** 50:
+        return rng.choice([v, float(v)])
+    if isinstance(v, float) and v == int(v):
+        return rng.choice([v, int(v)])
+    return v
+
+
+def eq_across_documents_check(sc):
+    """== between matches of two documents that are equal (by ==) value for value but spell some numbers in
+    another type: equality of matches is equality of the chains' names and data, data compared with =="""
+    rng = random.Random(sc["seed"])
+    d1 = dec(sc["doc"])
+    d2 = _retype(dec(sc["doc"]), rng)
+    e = Builder([]).steps(sc["path"])
+    ms1 = list(itertools.islice(find_matches(e, d1), 12))
+    ms2 = list(itertools.islice(find_matches(e, d2), 12))
+
+    def chain(m):
+        out = []
+        while m is not None:
+            out.append(m)
+            m = m.parent
+        return out
+    differ = False
+    for a in ms1:
+        for b_ in ms2:
+            la, lb = chain(a), chain(b_)
+            want = len(la) == len(lb) and all(x.data_name == y.data_name and x.data == y.data for x, y in zip(la, lb))
+            differ = differ or (want and any(type(x.data) is not type(y.data) for x, y in zip(la, lb)))
+            if (a == b_) != want or (a != b_) == want:
+                return (f"{a.path_as_str} = {a.data!r:.30} (document 1) == {b_.path_as_str} = {b_.data!r:.30} (document 2) gives "
+                        f"{a == b_}, the chains say {want}"), True
+    return None, differ
+
+
+def eq_across_documents_oracle(ctx):
+    def make(rng):
+        sc = gen.gen_query(rng, "child", api="find_matches", with_src=False, maxlen=3)
+        if rng.random() < 0.5:
+            sc["doc"] = enc({"a": [1, 0, True, 2.0, {"n": 1.0, "m": False}], "b": {"c": 0.0, "d": [1]}, "x": dec(sc["doc"])})
+            sc["path"] = rng.choice([[["k", "a"], ["iwc"]], [["rec"]], [["k", "a"], ["i", 4], ["gwc"]], [["k", "b"], ["gwc"]], [["gwc"], ["gwc"]]])
+        return {"doc": sc["doc"], "path": sc["path"], "seed": rng.randrange(1 << 30)}
+    _run(ctx, "eq_across_documents", 300, 8000, make, eq_across_documents_check)
+
+
 def eq_after_change_oracle(ctx):
     def make(rng):
         sc = gen.gen_query(rng, "child", api="find_matches", with_src=False, maxlen=4)
@@ -1970,3 +2026,6 @@ def slice_mutation_oracle(ctx):
 
 
 CHECKS.update({"snapshot": snapshot_check, "documented_errors": documented_check, "slice_under_mutation": slice_mutation_check})
+
+
+CHECKS["eq_across_documents"] = eq_across_documents_check
